@@ -5,6 +5,7 @@ import H2.Proofs.RecvEmits
 import H2.Proofs.ClosedCap
 import H2.Proofs.HbCap
 import H2.Proofs.History
+import H2.Proofs.ClosedTable
 
 namespace H2.C27
 open H2 H2.Gen H2.Conn
@@ -228,5 +229,32 @@ theorem C27_bounded_every_history (cfg : Config) (c : Conn) (h : C29.Reachable c
     c.closedStreams.length ≤ MAX_CLOSED_STREAMS.toNat ∧ (c.fb.headersBuffer.length : Int) ≤ CONTINUATION_BACKLOG := by
   refine every_history C27_calls_keep_bounds C27_recv_keeps_bounds (fun _ _ h => h) cfg ?_ c h
   cases hc : cfg.client <;> simp [Bounded, CC, HC, HbCap, Conn.init, hc, FrameBuffer.init, CONTINUATION_BACKLOG]
+
+/-- **a closed connection takes no new streams**: whatever bytes arrive on a CLOSED connection — HEADERS on ever new
+    stream ids included — every stream id in the table afterwards was in the table before (entries may leave: counting
+    the open streams cleans closed ones out), and the connection stays closed.  (Every handler asks the connection
+    state machine before it touches the table; mutant C27-e, which created the stream first, grew the table by one
+    idle stream per refused frame.) -/
+theorem C27_closed_connection_takes_no_stream (c : Conn) (d : Bytes) (hc : c.cstate = .CLOSED) :
+    (step c (.recv d)).1.cstate = .CLOSED ∧
+    ∀ e ∈ (step c (.recv d)).1.streams, ∃ e0 ∈ c.streams, e0.1 = e.1 := by
+  have := receiveData_closed_table d c hc
+  simp only [step]
+  cases hr : receiveData d c with
+  | mk r c' =>
+    rw [hr] at this
+    cases r <;> exact this
+
+/-- so the table of a closed connection never grows, however many deliveries follow -/
+theorem C27_closed_table_never_grows (c : Conn) (ds : List Bytes) (hc : c.cstate = .CLOSED) :
+    ∀ e ∈ (ds.foldl (fun c d => (step c (.recv d)).1) c).streams, ∃ e0 ∈ c.streams, e0.1 = e.1 := by
+  induction ds generalizing c with
+  | nil => intro e he; exact ⟨e, he, rfl⟩
+  | cons d t ih =>
+    intro e he
+    have h1 := C27_closed_connection_takes_no_stream c d hc
+    obtain ⟨e1, he1, h11⟩ := ih (step c (.recv d)).1 h1.1 e he
+    obtain ⟨e0, he0, h00⟩ := h1.2 e1 he1
+    exact ⟨e0, he0, h00.trans h11⟩
 
 end H2.C27
